@@ -172,16 +172,83 @@ def _option_origins(h):
     return org
 
 
-def _writer_locals(eh):
-    """{option: local} in ExampleCommand.handle: the local interpolated right after `--<option>='` in the composed command line"""
+def _example_flow(pkg):
+    """value reconstruction (sa.valueflow) of ExampleCommand.handle: the command line it composes, whatever mix of f-strings,
+    str.format, concatenation, format(), local helper functions and part lists it is spelled with"""
+    from ..valueflow import Flow
+    cache = pkg.__dict__.setdefault("_example_flow", {})
+    if "fl" not in cache:
+        cache["fl"] = Flow(pkg.method("ExampleCommand", "handle"), EXAMPLE)
+    return cache["fl"]
+
+
+def _flow_values(fl):
+    """every reconstructed value of the function: assigned values and the values of stores / appends / calls"""
+    from ..valueflow import simp
+    for lst in fl.assigns.values():
+        for a in lst:
+            yield simp(a[0])
+    for f in fl.facts:
+        if f.value is not None:
+            yield simp(f.value)
+
+
+def _text_consts(fl, v, seen=None):
+    """the literal text pieces of a string-valued IR: constants of f-strings / concatenations, join separators, the pieces of
+    comprehension elements, both arms of conditionals; a list filled by appends or a string grown by += contributes every piece
+    appended to it.  Data (attributes, parameters, call results) contributes nothing."""
+    from ..valueflow import simp
+    seen = seen if seen is not None else set()
+    out = set()
+    if not isinstance(v, tuple) or not v:
+        return out
+    k = v[0]
+    if k == "const":
+        if isinstance(v[1], str):
+            out.add(v[1])
+    elif k == "fstr":
+        for p_ in v[1]:
+            out |= _text_consts(fl, p_[1] if p_[0] == "fmt" else p_, seen)
+    elif k == "join":
+        out |= _text_consts(fl, v[1], seen) | _text_consts(fl, v[2], seen)
+    elif k == "comp":
+        out |= _text_consts(fl, v[2], seen)
+    elif k in ("list", "tuple"):
+        for e in v[1]:
+            out |= _text_consts(fl, e, seen)
+    elif k in ("ifexp", "phi"):
+        out |= _text_consts(fl, v[2], seen) | _text_consts(fl, v[3], seen)
+    elif k == "binop" and v[1] == "Add":
+        out |= _text_consts(fl, v[2], seen) | _text_consts(fl, v[3], seen)
+    elif k in ("appended", "copy", "after", "star"):
+        for x in v[1:]:
+            if isinstance(x, tuple):
+                out |= _text_consts(fl, x, seen)
+    elif k in ("acc", "carried"):
+        name = v[1]
+        if name not in seen:
+            seen.add(name)
+            for f in fl.facts:
+                if f.target == name and f.kind in ("init", "append", "mutate", "augassign", "store", "augstore") and f.value is not None:
+                    out |= _text_consts(fl, simp(f.value), seen)
+            for a in fl.assigns.get(name, []):
+                out |= _text_consts(fl, simp(a[0]), seen)
+    return out
+
+
+def _writer_values(fl):
+    """{option: IR of the value} in ExampleCommand.handle: what is interpolated right after `--<option>=` / `--<option>='` in the
+    composed command line"""
+    from ..valueflow import walk
     out = {}
-    for n in ast.walk(eh):
-        if isinstance(n, ast.JoinedStr):
-            for a, b in zip(n.values, n.values[1:]):
-                if isinstance(a, ast.Constant) and isinstance(b, ast.FormattedValue) and isinstance(b.value, ast.Name):
-                    m = re.search(r"--([a-z][a-z\-]+)='?$", str(a.value))
-                    if m:
-                        out[m.group(1)] = b.value.id
+    for v in _flow_values(fl):
+        for x in walk(v):
+            if isinstance(x, tuple) and len(x) == 2 and x[0] == "fstr":
+                for a, b in zip(x[1], x[1][1:]):
+                    if a[0] == "const" and isinstance(a[1], str) and b[0] == "fmt":
+                        m = re.search(r"--([a-z][a-z\-]+)='?$", a[1])
+                        if m:
+                            out.setdefault(m.group(1), b[1])
     return out
 
 
@@ -682,32 +749,16 @@ def _r3(ctx, pkg):
         if isinstance(c, ast.Call) and ast.unparse(c.func) == "option" and c.args and isinstance(c.args[0], ast.Constant):
             decl.add(c.args[0].value)
     used = set()
-    for n in ast.walk(h):
-        if isinstance(n, ast.Constant) and isinstance(n.value, str):
-            for m in re.finditer(r"--([a-z][a-z\-]+)", n.value):
-                used.add(m.group(1))
+    from ..valueflow import walk as _walk
+    for v in _flow_values(_example_flow(pkg)):
+        for x in _walk(v):
+            if isinstance(x, tuple) and len(x) == 2 and x[0] == "const" and isinstance(x[1], str):
+                for m in re.finditer(r"--([a-z][a-z\-]+)", x[1]):
+                    used.add(m.group(1))
     used -= {"select", "dry", "path"}
     ctx.floor("R3", "options composed by the example command", len(used), 20)
     for o in sorted(used):
         ctx.check(o in decl, "R3", f"--{o}", (EXAMPLE, h.lineno), f"--{o} is an option of `naunet init`")
-
-
-def _seps_writer(h):
-    """{local name: set of separator chars} from `x = "<sep>".join(f"...{a}<sep2>{b}" ...)` in ExampleCommand.handle"""
-    out = {}
-    for n in ast.walk(h):
-        if isinstance(n, (ast.Assign, ast.AugAssign)) and isinstance(getattr(n, "targets", [getattr(n, "target", None)])[0] if isinstance(n, ast.Assign) else n.target, ast.Name):
-            name = (n.targets[0] if isinstance(n, ast.Assign) else n.target).id
-            seps = out.setdefault(name, set())
-            v = n.value
-            for c in ast.walk(v):
-                if isinstance(c, ast.Call) and isinstance(c.func, ast.Attribute) and c.func.attr == "join" and isinstance(c.func.value, ast.Constant):
-                    seps |= set(c.func.value.value.strip())
-                if isinstance(c, ast.JoinedStr):
-                    for part in c.values:
-                        if isinstance(part, ast.Constant):
-                            seps |= {ch for ch in part.value if ch in ":;,="}
-    return out
 
 
 def _seps_reader(h, opt, org):
@@ -734,11 +785,11 @@ OPTION_SEPS = {"element-replacement": {",", ":"}, "shielding": {",", ":"}, "bind
 def _r4_r6_r7(ctx, pkg):
     eh = pkg.method("ExampleCommand", "handle")
     ih = _init_handle(pkg)
-    w = _seps_writer(eh)
-    wl_of = _writer_locals(eh)
+    efl = _example_flow(pkg)
+    wv = _writer_values(efl)
     org = _option_origins(ih)
     for opt, exp in OPTION_SEPS.items():
-        ws = {c for c in w.get(wl_of.get(opt), set()) if c in ":;,="}
+        ws = {c for t in (_text_consts(efl, wv[opt]) if opt in wv else ()) for c in t if c in ":;,="}
         rs = _seps_reader(ih, opt, org)
         ctx.check(ws == rs == exp, "R4", f"--{opt} separators", (INIT, ih.lineno),
                   f"the example command joins with {sorted(exp)} and the init command splits at the same characters" if ws == rs == exp else
